@@ -1,0 +1,124 @@
+//go:build verif
+
+package store
+
+import (
+	"time"
+
+	"github.com/canopy-network/canopy/lib"
+	"github.com/cockroachdb/pebble/v2"
+	"github.com/cockroachdb/pebble/v2/vfs"
+)
+
+// This file only exists under the `verif` build tag: add-only test hooks for the external verification
+// harness (/verif). Nothing here changes the behaviour of the package.
+
+// VerifOp is one state operation handed to the sparse merkle tree
+type VerifOp struct {
+	Key, Value []byte
+	Delete     bool
+}
+
+// VerifNode is a tree node as stored (node key bytes are the tree's own encoding)
+type VerifNode struct {
+	Key, Value, Left, Right []byte
+}
+
+// VerifNewSMT creates a sparse merkle tree with `keyBits`-bit keys over a private in-memory database
+func VerifNewSMT(keyBits int) (*SMT, lib.ErrorI) {
+	db, err := pebble.Open("", &pebble.Options{FS: vfs.NewMem(), FormatMajorVersion: pebble.FormatNewest})
+	if err != nil {
+		return nil, ErrOpenDB(err)
+	}
+	vs := NewVersionedStore(db.NewSnapshot(), db.NewBatch(), 1)
+	return NewSMT(RootKey, keyBits, NewTxn(vs, vs, []byte(stateCommitmentPrefix), false, false, true, 1)), nil
+}
+
+// VerifCommit applies the operations through the sequential or the parallel commit path
+func (s *SMT) VerifCommit(ops []VerifOp, parallel bool) lib.ErrorI {
+	m := make(map[uint64]valueOp, len(ops))
+	for i, o := range ops {
+		vo := valueOp{key: o.Key, value: o.Value, op: opSet}
+		if o.Delete {
+			vo.op = opDelete
+		}
+		m[uint64(i)] = vo
+	}
+	if parallel {
+		return s.CommitParallel(m)
+	}
+	return s.Commit(m)
+}
+
+// VerifNodes walks the stored tree from the root and returns every reachable node
+func (s *SMT) VerifNodes() (out []VerifNode, err lib.ErrorI) {
+	var walk func(k []byte) lib.ErrorI
+	walk = func(k []byte) lib.ErrorI {
+		n, e := s.getNode(k)
+		if e != nil {
+			return e
+		}
+		if n == nil {
+			return ErrInvalidMerkleTree()
+		}
+		out = append(out, VerifNode{Key: k, Value: n.Value, Left: n.LeftChildKey, Right: n.RightChildKey})
+		if n.LeftChildKey != nil {
+			if e = walk(n.LeftChildKey); e != nil {
+				return e
+			}
+		}
+		if n.RightChildKey != nil {
+			if e = walk(n.RightChildKey); e != nil {
+				return e
+			}
+		}
+		return nil
+	}
+	s.nodeCache = make(map[string]*node)
+	err = walk(s.root.Key.bytes())
+	return
+}
+
+// VerifStoredKeys lists every node key physically present in the tree's backing store (reachable or not)
+func (s *SMT) VerifStoredKeys() (keys [][]byte, err lib.ErrorI) {
+	it, err := s.store.Iterator(nil)
+	if err != nil {
+		return nil, err
+	}
+	defer it.Close()
+	for ; it.Valid(); it.Next() {
+		keys = append(keys, append([]byte{}, it.Key()...))
+	}
+	return
+}
+
+// VerifPurgeBlockCache empties the process-wide block cache (lets one test binary host several "processes")
+func VerifPurgeBlockCache() {
+	if blockCache != nil {
+		blockCache.Purge()
+	}
+}
+
+// VerifOpenStoreOnFS opens a Store with the production pebble options on a caller supplied file system
+func VerifOpenStoreOnFS(fs vfs.FS, dir string, config lib.Config, log lib.LoggerI) (*Store, *pebble.DB, lib.ErrorI) {
+	db, err := pebble.Open(dir, verifPebbleOptions(fs))
+	if err != nil {
+		return nil, nil, ErrOpenDB(err)
+	}
+	st, e := NewStoreWithDB(config, db, nil, log)
+	return st, db, e
+}
+
+// verifPebbleOptions mirrors NewStore's options (same format version, block-property collector and WAL sync
+// policy) on the given file system; the memtable is kept small so that flushes happen within short test runs
+func verifPebbleOptions(fs vfs.FS) *pebble.Options {
+	return &pebble.Options{
+		FS:                      fs,
+		MemTableSize:            1 << 20,
+		L0CompactionThreshold:   6,
+		L0StopWritesThreshold:   12,
+		FormatMajorVersion:      pebble.FormatColumnarBlocks,
+		BlockPropertyCollectors: []func() pebble.BlockPropertyCollector{newVersionedPropertyCollector},
+		WALMinSyncInterval:      func() time.Duration { return 2 * time.Millisecond },
+	}
+}
